@@ -83,7 +83,17 @@ def duration(c):
 
 
 class DaySet(set): pass
+def failed_listing(now):
+    """somewhere earlier in this process (two and a half days before `now`) a listing failed part-way: its second record carries a day mask the parser
+    refuses.  What that leaves behind is nobody's business later"""
+    rec = lambda i, mask: bytes([i, 1, mask, 1]) + struct.pack("<II", int(now) - 200000, int(now) - 190000) + bytes(4)
+    with time_machine.travel(at(now - 216000), tick=False):
+        try: get_schedules(bytes(45) + rec(1, 0x0a) + rec(2, 0x01) + rec(3, 0x04) + bytes(4))
+        except Exception: pass
+
+
 def next_run(c):
+    if (int(c["now"]) // 60) % 3 == 0: failed_listing(c["now"])
     with time_machine.travel(at(c["now"]), tick=False):
         # the day set as a set, a frozenset, a set subclass; positionally or with the parameters named
         ds = {DAYS[i] for i in c["days"]}; v = (int(c["now"]) // 60 + len(c["days"])) % 5
